@@ -231,6 +231,18 @@ func (dv *dev) transitiveFacts(root *ssa.Function, at actionTable) fnFacts {
 						}
 						continue
 					}
+					if ts, ok := localFuncTargets(cc.Value); ok {
+						for _, f := range ts {
+							visit(f)
+						}
+						continue
+					}
+					if ts, ok := paramFuncTargets(dv.p, cc.Value); ok {
+						for _, f := range ts {
+							visit(f)
+						}
+						continue
+					}
 					ff.dyn = append(ff.dyn, in)
 				}
 			}
@@ -598,10 +610,63 @@ func ruleCounterInit(c *Ctx, dv *dev, rule string) {
 		return
 	}
 	okOuter, okInner := false, false
-	outer = throughCtor(c.P, outer) // the table may be built by a constructor helper
+	// the table may be built by a constructor helper, possibly a generic one that is handed the per-table initialiser as a
+	// function value: parameters of the helper are bound to the arguments of the call in NewDevice
+	bind := map[*ssa.Parameter]ssa.Value{}
+	if call, isCall := outer.(*ssa.Call); isCall {
+		if callee := call.Call.StaticCallee(); callee != nil && callee.Blocks != nil && c.P.OwnedFunc(callee) {
+			for i, prm := range callee.Params {
+				if i < len(call.Call.Args) {
+					bind[prm] = call.Call.Args[i]
+				}
+			}
+		}
+	}
+	outer = throughCtor(c.P, outer)
 	host := nd
 	if in, ok := outer.(ssa.Instruction); ok {
 		host = in.Parent()
+	}
+	// zeroFills: function fn writes the constant 0 under every key of a counted loop [0,127] into the map it receives as
+	// parameter number pi
+	zeroFills := func(fn *ssa.Function, pi int) bool {
+		if fn == nil || fn.Blocks == nil || pi >= len(fn.Params) {
+			return false
+		}
+		for _, b := range fn.Blocks {
+			for _, in := range b.Instrs {
+				if mu, ok := in.(*ssa.MapUpdate); ok && mu.Map == ssa.Value(fn.Params[pi]) {
+					if lo, hi, ok := countedLoopRange(mu.Key); ok && lo == 0 && hi == 127 {
+						if k, isC := mu.Value.(*ssa.Const); isC && k.Int64() == 0 {
+							return true
+						}
+					}
+				}
+			}
+		}
+		return false
+	}
+	funcOf := func(v ssa.Value) *ssa.Function {
+		for i := 0; i < 4; i++ {
+			switch x := v.(type) {
+			case *ssa.Function:
+				return x
+			case *ssa.MakeClosure:
+				f, _ := x.Fn.(*ssa.Function)
+				return f
+			case *ssa.ChangeType:
+				v = x.X
+			case *ssa.Parameter:
+				if b, ok := bind[x]; ok {
+					v = b
+				} else {
+					return nil
+				}
+			default:
+				return nil
+			}
+		}
+		return nil
 	}
 	for _, b := range host.Blocks {
 		for _, in := range b.Instrs {
@@ -635,6 +700,24 @@ func ruleCounterInit(c *Ctx, dv *dev, rule string) {
 					if mu2, ok := in2.(*ssa.MapUpdate); ok && mu2.Map == ssa.Value(mk) {
 						if lo, hi, ok := countedLoopRange(mu2.Key); ok && lo == 0 && hi == 127 {
 							if k, isC := mu2.Value.(*ssa.Const); isC && k.Int64() == 0 {
+								okInner = true
+							}
+						}
+					}
+					// the fresh table handed to an initialiser: a function of the repository, or the function value the
+					// helper was given
+					if call, ok := in2.(*ssa.Call); ok && !call.Call.IsInvoke() {
+						for ai, a := range call.Call.Args {
+							if a != ssa.Value(mk) {
+								continue
+							}
+							callee := call.Call.StaticCallee()
+							if callee == nil {
+								callee = funcOf(call.Call.Value)
+							}
+							if callee != nil && c.P.OwnedFunc(callee) && zeroFills(callee, ai) && mu.Key.(*ssa.Phi).Block().Dominates(call.Block()) {
+								// the call must not be skipped for the binding in question: `if fill != nil { fill(t) }` with a
+								// non-nil function bound
 								okInner = true
 							}
 						}
